@@ -229,3 +229,17 @@ Proof.
   intros K. specialize (K (parent0 [[v 9; None]; [v 9; None]]) [0] (or_introl eq_refl) eq_refl).
   cbn in K. inversion K as [|? ? Hn _]; subst. apply Hn. left. reflexivity.
 Qed.
+
+(** the ON UPDATE actions fire when a primary-key column is ASSIGNED, not when the key CHANGES:
+    UPDATE t0 SET c0 = 2 WHERE c0 = 2 leaves t0 as it is and still NULLs the child's reference
+    (updates_pk in update/mod.rs looks at the assignment list only) *)
+Definition w13_db : db := [parent0 [[v 2; None]]; child1 ANoAction ASetNull None [[v 7; v 2]]].
+Definition w13_stmt : stmt := SUpdate 0 [(0, ELit (v 2))] (Some (PCmp 0 OEq 2)).
+Theorem unchanged_key_update_witness :
+  inv w13_db /\ RI w13_db /\ step_events [0; 1] w13_db w13_stmt = []
+  /\ get_table (step_db [0; 1] w13_db w13_stmt) 0 = get_table w13_db 0
+  /\ get_table (step_db [0; 1] w13_db w13_stmt) 1 <> get_table w13_db 1.
+Proof.
+  split; [apply inv_b_inv; vm_compute; reflexivity|]. split; [apply ri_exact_b_RI; vm_compute; reflexivity|].
+  vm_compute. repeat split; try reflexivity. discriminate.
+Qed.
